@@ -183,7 +183,7 @@ def c14(tier, seed):
         rule="fault = cut right after flush() returned: the bytes the destination holds at that moment are repaired in both modes; every file must come back "
              "with at least the bytes appended before the flush (plain / unauthenticated) or the bytes the independent decoder finds in completed encryption "
              "chunks (authenticated); distinct = distinct (program, flush index); non-trivial = something was appended before the flush",
-        musthit=["musthit:compressible_200000_then_flush", "flush:layers0", "flush:layers1", "flush:layers2", "flush:layers3"],
+        musthit=["musthit:compressible_200000_then_flush", "musthit:flush_exactly_on_block_edge", "flush:layers0", "flush:layers1", "flush:layers2", "flush:layers3"],
     )
 
 
